@@ -184,3 +184,80 @@ fn run_body(h: &mut H, r: &mut Rng, prof: &Profile) {
         }
     }
 }
+
+// ---------------------------------------------------------------------------------------------
+// Boundary histories: generation / archetype-version overflow reached through the preset hook.
+
+fn ks(key: Key, typed: bool, world_level: bool) -> KeySpec {
+    KeySpec { key, typed, world_level, at: None }
+}
+
+/// One overflow scenario on archetype `ai`; `variant` rotates key kinds and follow-up operations.
+fn overflow_run(h: &mut H, ai: usize, slot_start: u32, arch_start: u32, variant: u64) {
+    h.op_reset();
+    h.begin("init");
+    h.op_init(0, [3, 3, 3, 3]);
+    h.begin("preset");
+    h.op_preset(0, ai, slot_start, arch_start);
+    let p: Vec<i64> = (0..32).map(|i| 500 + i).collect();
+    let mut made: Vec<Tok> = Vec::new();
+    for _ in 0..3 {
+        h.begin("create");
+        if let Some(t) = h.op_create(0, ai, &p, variant as u8, false) { made.push(t); }
+    }
+    // recycle one position until its generation (or the archetype version) passes the limit
+    let mut cur = made[0];
+    for round in 0..5u64 {
+        h.begin("destroy");
+        let typed = (round + variant) % 2 == 0;
+        let wl = (round + variant / 2) % 2 == 0;
+        h.op_destroy(0, ks(Key::Ent(cur), typed, wl), None);
+        let still = h.worlds[0].as_ref().unwrap().contains(any_of(cur));
+        if still {
+            // the documented overflow panic left the entity alive: keep using the world
+            h.begin("write");
+            h.op_write(0, ks(Key::Ent(cur), true, false), (variant % 8) as u8, 0, 900 + round as i64);
+            h.begin("to_direct");
+            if let Some(d) = h.op_to_direct(0, ks(Key::Ent(cur), false, true)) {
+                h.begin("destroy");
+                h.op_destroy(0, ks(Key::Dir(d), round % 2 == 0, variant % 2 == 0), None);
+            }
+            let mut decide = HashMap::new();
+            decide.insert(cur, Step::ContinueDestroy);
+            h.begin("loop");
+            h.op_loop(0, 0, Mac::IterDestroy, &decide, Step::Continue, None, None);
+            if made.len() > 1 {
+                let other = made[1];
+                h.begin("destroy");
+                h.op_destroy(0, ks(Key::Ent(other), false, true), None);
+            }
+            break;
+        }
+        h.begin("create");
+        match h.op_create(0, ai, &p, (variant + round) as u8, round % 2 == 0) {
+            Some(t) => { cur = t; made.push(t); }
+            None => break,
+        }
+    }
+    h.begin("clone");
+    h.op_clone(0, 1, None);
+    h.begin("create");
+    h.op_create(1, ai, &p, 0, false);
+    h.begin("drop");
+    h.op_drop(0, None);
+    h.begin("drop");
+    h.op_drop(1, None);
+}
+
+pub fn boundary(h: &mut H) {
+    let max = u32::MAX;
+    let mut variant = 0u64;
+    for ai in 0..NARCH {
+        for (slot, arch) in [(max - 2, 7u32), (max - 1, 7), (max, 7), (1, max - 2), (5, max - 1), (5, max), (max - 1, max - 1), (max, max)] {
+            variant += 1;
+            let r = guard(|| overflow_run(h, ai, slot, arch, variant));
+            if r.is_err() { h.crash("escaped_panic"); }
+        }
+    }
+    h.op_reset();
+}
